@@ -139,10 +139,21 @@ def make(targets, timeout=3000):
         return rc == 0, out + out2
 
 
-MODELS = {
-    # name: (extraction file under coq/extract, produced .ml, entry point, run-module .vo it depends on)
-    'markup': ('ExtractMarkup.v', 'markup_model.ml', 'run', 'run/MarkupRun.vo'),
-}
+def _discover_models():
+    """Convention: coq/extract/Extract<Name>.v extracts `<name>_model.ml` with entry `run`
+    from coq/run/<Name>Run.v."""
+    out = {}
+    d = os.path.join(COQ, 'extract')
+    if os.path.isdir(d):
+        for fn in sorted(os.listdir(d)):
+            m = re.match(r'Extract(\w+)\.v$', fn)
+            if m:
+                name = m.group(1)
+                out[name.lower()] = (fn, name.lower() + '_model.ml', 'run', 'run/%sRun.vo' % name)
+    return out
+
+
+MODELS = _discover_models()
 
 
 def file_hash(path):
@@ -296,7 +307,16 @@ def load_known():
     if not os.path.exists(p):
         return {'findings': [], 'fixed': []}
     with open(p) as f:
-        return json.load(f)
+        k = json.load(f)
+    d = os.path.join(VERIF, 'known_findings.d')
+    if os.path.isdir(d):
+        for fn in sorted(os.listdir(d)):
+            if fn.endswith('.json'):
+                with open(os.path.join(d, fn)) as f:
+                    k2 = json.load(f)
+                k['findings'] += k2.get('findings', [])
+                k['fixed'] += k2.get('fixed', [])
+    return k
 
 
 # ------------------------------------------------------------------ context
